@@ -852,7 +852,10 @@ impl Drop for OsIpcSharedMemory {
 impl Clone for OsIpcSharedMemory {
     fn clone(&self) -> OsIpcSharedMemory {
         unsafe {
-            let store = BackingStore::from_fd(libc::dup(self.store.fd()));
+            // Like every other descriptor we create, the duplicate must not be inherited
+            // by child processes (plain `dup` does not set the close-on-exec flag).
+            let store =
+                BackingStore::from_fd(libc::fcntl(self.store.fd(), libc::F_DUPFD_CLOEXEC, 0));
             let (address, _) = store.map_file(Some(self.length));
             OsIpcSharedMemory::from_raw_parts(address, self.length, store)
         }
